@@ -559,11 +559,23 @@ func crcFold(p *Path, bits int, st *Term, s Slice) *Term {
 			allConst = false
 		}
 	}
-	if allConst && bits != 256 {
-		if bits == 32 {
-			return ts.Const(uint64(crc32.Update(uint32(st.Val), crc32.IEEETable, buf)), 32)
+	_ = allConst
+	// A constant state is advanced concretely over the maximal constant
+	// prefix (real CRC); from the first symbolic byte on the state is an
+	// uninterpreted chain. Both sides of a comparison see the same byte
+	// sequence, hence the same split, whatever the chunking of the writes.
+	i := 0
+	if bits != 256 && st.IsConst() {
+		for i < n && cells[i].IsConst() {
+			i++
 		}
-		return ts.Const(crc64.Update(st.Val, crc64ECMA, buf), 64)
+		if i > 0 {
+			if bits == 32 {
+				st = ts.Const(uint64(crc32.Update(uint32(st.Val), crc32.IEEETable, buf[:i])), 32)
+			} else {
+				st = ts.Const(crc64.Update(st.Val, crc64ECMA, buf[:i]), 64)
+			}
+		}
 	}
 	name := fmt.Sprintf("crc%d_step", bits)
 	w := bits
@@ -571,7 +583,7 @@ func crcFold(p *Path, bits int, st *Term, s Slice) *Term {
 		name = "sha256_step"
 		w = 64
 	}
-	for i := 0; i < n; i++ {
+	for ; i < n; i++ {
 		st = p.ufApply(name, w, st, cells[i])
 	}
 	return st
